@@ -170,61 +170,87 @@ h!(u12_mania_processed_n3, step_processed, 3);
 use crate::mania::performance::gradual::ManiaGradualPerformance;
 use crate::mania::performance::ManiaPerformance;
 use crate::mania::{ManiaPerformanceAttributes, ManiaScoreState};
-use crate::util::map_or_attrs::MapOrAttrs;
 
-static mut REC: Option<ManiaPerformance<'static>> = None;
+// Everything the recording stub needs is kept as plain data (no enums with heap variants travel through statics, which
+// would make CBMC explore BTreeMap / Beatmap clones).
+static mut EXP_BITS: u32 = 0;
+static mut EXP_PASSED: Option<u32> = None;
+static mut EXP_RATE: bool = false;
+static mut EXP_LAZER: Option<bool> = None;
+static mut EXP_STATE: [u32; 8] = [0; 8];
+static mut EXP_I: u32 = 0;
 static mut REC_CALLS: u32 = 0;
+static mut REC_MATCH: bool = false;
 
-/// Recording replacement for `ManiaPerformance::calculate` (the float pp pipeline): keeps the builder it is called on.
+/// the settings the caller created the gradual calculator with (possibly carrying their own passed_objects)
+fn user_difficulty() -> Difficulty {
+    unsafe {
+        let mut d = Difficulty::new().mods(EXP_BITS);
+        if let Some(p) = EXP_PASSED {
+            d = d.passed_objects(p);
+        }
+        if EXP_RATE {
+            // a concrete non-default rate: forwarding is by cloning the whole Difficulty; a symbolic rate would drag
+            // the modes' float combo arithmetic into the formula
+            d = d.clock_rate(1.5);
+        }
+        if let Some(l) = EXP_LAZER {
+            d = d.lazer(l);
+        }
+        d
+    }
+}
+
+fn user_state() -> ManiaScoreState {
+    unsafe { ManiaScoreState { n320: EXP_STATE[0], n300: EXP_STATE[1], n200: EXP_STATE[2], n100: EXP_STATE[3], n50: EXP_STATE[4], misses: EXP_STATE[5] } }
+}
+
+/// Recording replacement for `ManiaPerformance::calculate` (the float pp pipeline): checks the builder it is called on
+/// against what a one-shot user builds from the same attributes:
+/// Performance(attrs).difficulty(D).passed_objects(i).state(S) - i.e. applying exactly those settings changes nothing.
 fn rec_calculate<'map>(this: ManiaPerformance<'map>) -> Result<ManiaPerformanceAttributes, crate::model::mode::ConvertError>
 where
     'map: 'map, // early-bound, so that the generic parameter count matches the stubbed method
 {
     unsafe {
         REC_CALLS += 1;
-        REC = Some(std::mem::transmute::<ManiaPerformance<'map>, ManiaPerformance<'static>>(this));
+        let expect = this.clone().difficulty(user_difficulty()).passed_objects(EXP_I).state(user_state());
+        REC_MATCH = this == expect;
+        std::mem::forget(expect);
     }
+    std::mem::forget(this);
     Ok(ManiaPerformanceAttributes::default())
-}
-
-fn any_user_difficulty() -> Difficulty {
-    let bits: u32 = kani::any();
-    let mut d = Difficulty::new().mods(bits);
-    if kani::any() {
-        d = d.passed_objects(kani::any());
-    }
-    if kani::any() {
-        d = d.clock_rate(kani::any());
-    }
-    if kani::any() {
-        d = d.lazer(kani::any());
-    }
-    d
 }
 
 fn perf_step(n: usize) {
     let (mut g, _) = any_state(n);
-    let total = n;
-    // the settings the caller created the gradual calculator with (possibly carrying their own passed_objects)
-    g.difficulty = any_user_difficulty();
-    let d = g.difficulty.clone();
+    unsafe {
+        EXP_BITS = kani::any();
+        EXP_PASSED = if kani::any() { Some(kani::any()) } else { None };
+        EXP_RATE = kani::any();
+        EXP_LAZER = if kani::any() { Some(kani::any()) } else { None };
+        EXP_STATE = kani::any();
+    }
+    g.difficulty = user_difficulty();
+    let lazer = g.difficulty.get_lazer();
+    let _ = lazer;
     let idx0 = g.idx;
-    let remaining = total - idx0;
+    let remaining = n - idx0;
     let mut p = ManiaGradualPerformance::__verif_from_parts(g);
-    let state = ManiaScoreState {
-        n320: kani::any(),
-        n300: kani::any(),
-        n200: kani::any(),
-        n100: kani::any(),
-        n50: kani::any(),
-        misses: kani::any(),
-    };
     let which: u8 = kani::any();
     let k: usize = kani::any();
-    let (ret, consumed) = match which % 3 {
-        0 => (p.next(state.clone()), if remaining > 0 { 1 } else { 0 }),
-        1 => (p.last(state.clone()), remaining),
-        _ => (p.nth(state.clone(), k), if k < remaining { k + 1 } else { remaining }),
+    let consumed = match which % 3 {
+        0 => if remaining > 0 { 1 } else { 0 },
+        1 => remaining,
+        _ => if k < remaining { k + 1 } else { remaining },
+    };
+    unsafe {
+        EXP_I = (idx0 + consumed) as u32;
+    }
+    let ret = match which % 3 {
+        0 => p.next(user_state()),
+        1 => p.last(user_state()),
+        _ => p.nth(user_state(), k),
     };
     assert!(p.len() == remaining - consumed, "C15.e gradual performance processes min(n+1, remaining) objects (last: all remaining)");
     assert!(ret.is_some() == (remaining > 0), "C15.e gradual performance returns None exactly when nothing remains");
@@ -233,19 +259,7 @@ fn perf_step(n: usize) {
             assert!(REC_CALLS == 0, "C03 nothing is calculated when nothing remains");
         } else {
             assert!(REC_CALLS == 1, "C03 exactly one performance calculation per step");
-            let i = (idx0 + consumed) as u32;
-            match REC.take() {
-                Some(rec) => {
-                    // `rec` must already be what a one-shot user builds from the same attributes:
-                    // Performance(attrs).difficulty(D).passed_objects(i).state(S). The attributes field is private to
-                    // the builder, so this is stated as: applying exactly those settings to `rec` changes nothing.
-                    let expect = rec.clone().difficulty(d).passed_objects(i).state(state);
-                    assert!(rec == expect, "C03 gradual performance evaluates exactly the one-shot builder: same settings, passed_objects(i), same state");
-                    std::mem::forget(rec);
-                    std::mem::forget(expect);
-                }
-                None => assert!(false, "C03 builder recorded"),
-            }
+            assert!(REC_MATCH, "C03 gradual performance evaluates exactly the one-shot builder: same settings, passed_objects(i), same state");
         }
     }
     std::mem::forget(p);
@@ -266,18 +280,18 @@ macro_rules! hp {
 
 //@ obl: id=U12.mania.perf.n0 harness=u12_mania_perf_n0 stubs=yes props=C03,C15 tier=quick kind=bounded
 //@ fns: ManiaGradualPerformance::next, ManiaGradualPerformance::nth, ManiaGradualPerformance::last, ManiaGradualPerformance::len
-//@ bound: bounded: 0 objects; state position, n, the score state (all u32 fields) and the caller's Difficulty (mods bits, passed_objects, clock rate, lazer) symbolic; ManiaPerformance::calculate replaced by a recording stub
+//@ bound: bounded: 0 objects; calculator position, the nth argument, the score state (all u32 fields) and the caller's Difficulty (mods bits, passed_objects, lazer symbolic; clock rate unset or 1.5) symbolic; ManiaPerformance::calculate replaced by a recording stub
 //@ clause: C15 (e): nth(state, n) processes min(n+1, remaining) objects, last processes all remaining, next one; None exactly when nothing remains. C03: the performance builder that gets calculated equals Performance(attributes after i objects).difficulty(D).passed_objects(i).state(S) field for field, i = objects consumed so far
 hp!(u12_mania_perf_n0, 0);
 
-//@ obl: id=U12.mania.perf.n3 harness=u12_mania_perf_n3 stubs=yes props=C03,C15 tier=thorough kind=bounded budget=3000
-//@ fns: ManiaGradualPerformance::next, ManiaGradualPerformance::nth, ManiaGradualPerformance::last, ManiaGradualPerformance::len
-//@ bound: bounded: 3 objects; state position, n, the score state (all u32 fields) and the caller's Difficulty (mods bits, passed_objects, clock rate, lazer) symbolic; ManiaPerformance::calculate replaced by a recording stub
-//@ clause: C15 (e): nth(state, n) processes min(n+1, remaining) objects, last processes all remaining, next one; None exactly when nothing remains. C03: the performance builder that gets calculated equals Performance(attributes after i objects).difficulty(D).passed_objects(i).state(S) field for field, i = objects consumed so far
-hp!(u12_mania_perf_n3, 3);
-
 //@ obl: id=U12.mania.perf.n2 harness=u12_mania_perf_n2 stubs=yes props=C03,C15 tier=quick kind=bounded
 //@ fns: ManiaGradualPerformance::next, ManiaGradualPerformance::nth, ManiaGradualPerformance::last, ManiaGradualPerformance::len
-//@ bound: bounded: 2 objects; otherwise as U12.mania.perf.n0
-//@ clause: as U12.mania.perf.n0
+//@ bound: bounded: 2 objects; calculator position, the nth argument, the score state (all u32 fields) and the caller's Difficulty (mods bits, passed_objects, lazer symbolic; clock rate unset or 1.5) symbolic; ManiaPerformance::calculate replaced by a recording stub
+//@ clause: C15 (e): nth(state, n) processes min(n+1, remaining) objects, last processes all remaining, next one; None exactly when nothing remains. C03: the performance builder that gets calculated equals Performance(attributes after i objects).difficulty(D).passed_objects(i).state(S) field for field, i = objects consumed so far
 hp!(u12_mania_perf_n2, 2);
+
+//@ obl: id=U12.mania.perf.n3 harness=u12_mania_perf_n3 stubs=yes props=C03,C15 tier=thorough kind=bounded budget=3000
+//@ fns: ManiaGradualPerformance::next, ManiaGradualPerformance::nth, ManiaGradualPerformance::last, ManiaGradualPerformance::len
+//@ bound: bounded: 3 objects; calculator position, the nth argument, the score state (all u32 fields) and the caller's Difficulty (mods bits, passed_objects, lazer symbolic; clock rate unset or 1.5) symbolic; ManiaPerformance::calculate replaced by a recording stub
+//@ clause: C15 (e): nth(state, n) processes min(n+1, remaining) objects, last processes all remaining, next one; None exactly when nothing remains. C03: the performance builder that gets calculated equals Performance(attributes after i objects).difficulty(D).passed_objects(i).state(S) field for field, i = objects consumed so far
+hp!(u12_mania_perf_n3, 3);
